@@ -52,21 +52,24 @@ structure Rel (db0 db : DB) (keepV keepP : Int → Bool) (to : Int) : Prop where
     ∃ c', loadInfo db (.vals h) = some (c', true)
   keptP : ∀ h, keepP h = true → ∀ c, loadInfo db0 (.params h) = some (c, true) →
     ∃ c', loadInfo db (.params h) = some (c', true)
+  stateKey : get db .state = get db0 .state
 
 theorem rel_refl (db0 : DB) (keepV keepP : Int → Bool) (to : Int) : Rel db0 db0 keepV keepP to :=
-  ⟨fun _ _ => rfl, fun _ _ => rfl, fun _ _ c hc => ⟨c, hc⟩, fun _ _ c hc => ⟨c, hc⟩⟩
+  ⟨fun _ _ => rfl, fun _ _ => rfl, fun _ _ c hc => ⟨c, hc⟩, fun _ _ c hc => ⟨c, hc⟩, rfl⟩
 
 theorem rel_step (db0 db : DB) (keepV keepP : Int → Bool) (to : Int) (w : Write)
     (hr : Rel db0 db keepV keepP to) (hs : Shape db0 keepV keepP to w) :
     Rel db0 (apply db w) keepV keepP to := by
   rcases hs with ⟨h, hlt, hk, rfl⟩ | ⟨h, hlt, rfl⟩ | ⟨h, hlt, hk, rfl⟩ | ⟨h, f, hlt, hnf, rfl⟩ | ⟨h, rfl⟩
-  · refine ⟨fun a ha => ?_, fun a ha => ?_, fun a ha c hc => ?_, fun a ha c hc => ?_⟩
+  · refine ⟨fun a ha => ?_, fun a ha => ?_, fun a ha c hc => ?_, fun a ha c hc => ?_,
+      (by first | (rw [get_del, if_neg (by intro e; cases e)]; exact hr.stateKey) | (rw [get_set, if_neg (by intro e; cases e)]; exact hr.stateKey))⟩
     · rw [loadInfo_del, if_neg (by intro e; injection e; omega)]; exact hr.vals a ha
     · rw [loadInfo_del, if_neg (by intro e; cases e)]; exact hr.params a ha
     · rw [loadInfo_del, if_neg (by intro e; injection e with e; subst e; rw [hk] at ha; cases ha)]
       exact hr.keptV a ha c hc
     · rw [loadInfo_del, if_neg (by intro e; cases e)]; exact hr.keptP a ha c hc
-  · refine ⟨fun a ha => ?_, fun a ha => ?_, fun a ha c hc => ?_, fun a ha c hc => ?_⟩
+  · refine ⟨fun a ha => ?_, fun a ha => ?_, fun a ha c hc => ?_, fun a ha c hc => ?_,
+      (by first | (rw [get_del, if_neg (by intro e; cases e)]; exact hr.stateKey) | (rw [get_set, if_neg (by intro e; cases e)]; exact hr.stateKey))⟩
     · rw [loadInfo_set, if_neg (by intro e; injection e; omega)]; exact hr.vals a ha
     · rw [loadInfo_set, if_neg (by intro e; cases e)]; exact hr.params a ha
     · rw [loadInfo_set]
@@ -74,13 +77,15 @@ theorem rel_step (db0 db : DB) (keepV keepP : Int → Bool) (to : Int) (w : Writ
       · rw [if_pos e]; exact ⟨h, rfl⟩
       · rw [if_neg e]; exact hr.keptV a ha c hc
     · rw [loadInfo_set, if_neg (by intro e; cases e)]; exact hr.keptP a ha c hc
-  · refine ⟨fun a ha => ?_, fun a ha => ?_, fun a ha c hc => ?_, fun a ha c hc => ?_⟩
+  · refine ⟨fun a ha => ?_, fun a ha => ?_, fun a ha c hc => ?_, fun a ha c hc => ?_,
+      (by first | (rw [get_del, if_neg (by intro e; cases e)]; exact hr.stateKey) | (rw [get_set, if_neg (by intro e; cases e)]; exact hr.stateKey))⟩
     · rw [loadInfo_del, if_neg (by intro e; cases e)]; exact hr.vals a ha
     · rw [loadInfo_del, if_neg (by intro e; injection e; omega)]; exact hr.params a ha
     · rw [loadInfo_del, if_neg (by intro e; cases e)]; exact hr.keptV a ha c hc
     · rw [loadInfo_del, if_neg (by intro e; injection e with e; subst e; rw [hk] at ha; cases ha)]
       exact hr.keptP a ha c hc
-  · refine ⟨fun a ha => ?_, fun a ha => ?_, fun a ha c hc => ?_, fun a ha c hc => ?_⟩
+  · refine ⟨fun a ha => ?_, fun a ha => ?_, fun a ha c hc => ?_, fun a ha c hc => ?_,
+      (by first | (rw [get_del, if_neg (by intro e; cases e)]; exact hr.stateKey) | (rw [get_set, if_neg (by intro e; cases e)]; exact hr.stateKey))⟩
     · rw [loadInfo_set, if_neg (by intro e; cases e)]; exact hr.vals a ha
     · rw [loadInfo_set, if_neg (by intro e; injection e; omega)]; exact hr.params a ha
     · rw [loadInfo_set, if_neg (by intro e; cases e)]; exact hr.keptV a ha c hc
@@ -88,7 +93,8 @@ theorem rel_step (db0 db : DB) (keepV keepP : Int → Bool) (to : Int) (w : Writ
       by_cases e : Key.params h = Key.params a
       · injection e with e; subst e; exact absurd hc (hnf c)
       · rw [if_neg e]; exact hr.keptP a ha c hc
-  · refine ⟨fun a ha => ?_, fun a ha => ?_, fun a ha c hc => ?_, fun a ha c hc => ?_⟩
+  · refine ⟨fun a ha => ?_, fun a ha => ?_, fun a ha c hc => ?_, fun a ha c hc => ?_,
+      (by first | (rw [get_del, if_neg (by intro e; cases e)]; exact hr.stateKey) | (rw [get_set, if_neg (by intro e; cases e)]; exact hr.stateKey))⟩
     · rw [loadInfo_del, if_neg (by intro e; cases e)]; exact hr.vals a ha
     · rw [loadInfo_del, if_neg (by intro e; cases e)]; exact hr.params a ha
     · rw [loadInfo_del, if_neg (by intro e; cases e)]; exact hr.keptV a ha c hc
@@ -210,10 +216,14 @@ theorem lastStored_eq (h to c : Int) (hle : to ≤ h) (hlt : lastStoredHeightFor
   simp only [lastStoredHeightFor, interval, Facts.c18_valSetCheckpointInterval] at *
   omega
 
-theorem serve_vals (db0 db : DB) (to vc : Int) (vfull : Bool) (keepP : Int → Bool)
+theorem serve_vals_at (db0 db : DB) (to vc : Int) (vfull : Bool) (keepP : Int → Bool)
     (hto : loadInfo db0 (.vals to) = some (vc, vfull))
     (hr : Rel db0 db (fun h => !vfull && (h == vc || h == lastStoredHeightFor to vc)) keepP to)
-    (inv : PtrInv db0 to) (h : Int) (hh : to ≤ h) (hl : valsLoadable db0 h = true) :
+    (h : Int) (hh : to ≤ h)
+    (hAgree : ∀ c, loadInfo db0 (.vals h) = some (c, false) → c < to →
+      ∃ f, loadInfo db0 (.vals to) = some (c, f))
+    (hFull : ∀ c, loadInfo db0 (.vals to) = some (c, true) → c = to ∨ to % interval = 0)
+    (hl : valsLoadable db0 h = true) :
     valsLoadable db h = true := by
   unfold valsLoadable at hl ⊢
   rw [hr.vals h hh]
@@ -234,7 +244,7 @@ theorem serve_vals (db0 db : DB) (to vc : Int) (vfull : Bool) (keepP : Int → B
       by_cases hge : to ≤ lastStoredHeightFor h c
       · rw [hr.vals _ hge, hc2]
       · obtain ⟨e1, e2, e3⟩ := lastStored_eq h to c hh (by omega)
-        obtain ⟨f', hf'⟩ := inv.valsAgree h c hh e e2
+        obtain ⟨f', hf'⟩ := hAgree c e e2
         rw [hto] at hf'
         injection hf' with hf'
         injection hf' with hvc hvf
@@ -244,16 +254,20 @@ theorem serve_vals (db0 db : DB) (to vc : Int) (vfull : Bool) (keepP : Int → B
           | false => rfl
           | true =>
             rw [hv] at hto
-            rcases inv.valsFull vc hto with e4 | e4
+            rcases hFull vc hto with e4 | e4
             · omega
             · exact absurd e4 e3
         obtain ⟨c', hc'⟩ := hr.keptV (lastStoredHeightFor h vc) (by simp [hnf, e1]) c2 hc2
         rw [hc']
 
-theorem serve_params (db0 db : DB) (to pc : Int) (pfull : Bool) (keepV : Int → Bool)
+theorem serve_params_at (db0 db : DB) (to pc : Int) (pfull : Bool) (keepV : Int → Bool)
     (hto : loadInfo db0 (.params to) = some (pc, pfull))
     (hr : Rel db0 db keepV (fun h => !pfull && h == pc) to)
-    (inv : PtrInv db0 to) (h : Int) (hh : to ≤ h) (hl : paramsLoadable db0 h = true) :
+    (h : Int) (hh : to ≤ h)
+    (hAgree : ∀ c, loadInfo db0 (.params h) = some (c, false) → c < to →
+      ∃ f, loadInfo db0 (.params to) = some (c, f))
+    (hFull : ∀ c, loadInfo db0 (.params to) = some (c, true) → c = to)
+    (hl : paramsLoadable db0 h = true) :
     paramsLoadable db h = true := by
   unfold paramsLoadable at hl ⊢
   rw [hr.params h hh]
@@ -273,7 +287,7 @@ theorem serve_params (db0 db : DB) (to pc : Int) (pfull : Bool) (keepV : Int →
       obtain ⟨c2, hc2⟩ := hfull
       by_cases hge : to ≤ c
       · rw [hr.params _ hge, hc2]
-      · obtain ⟨f', hf'⟩ := inv.paramsAgree h c hh e (by omega)
+      · obtain ⟨f', hf'⟩ := hAgree c e (by omega)
         rw [hto] at hf'
         injection hf' with hf'
         injection hf' with hpc hpf
@@ -283,10 +297,26 @@ theorem serve_params (db0 db : DB) (to pc : Int) (pfull : Bool) (keepV : Int →
           | false => rfl
           | true =>
             rw [hv] at hto
-            have := inv.paramsFull pc hto
+            have := hFull pc hto
             omega
         obtain ⟨c', hc'⟩ := hr.keptP pc (by simp [hnf]) c2 hc2
         rw [hc']
+
+theorem serve_vals (db0 db : DB) (to vc : Int) (vfull : Bool) (keepP : Int → Bool)
+    (hto : loadInfo db0 (.vals to) = some (vc, vfull))
+    (hr : Rel db0 db (fun h => !vfull && (h == vc || h == lastStoredHeightFor to vc)) keepP to)
+    (inv : PtrInv db0 to) (h : Int) (hh : to ≤ h) (hl : valsLoadable db0 h = true) :
+    valsLoadable db h = true :=
+  serve_vals_at db0 db to vc vfull keepP hto hr h hh (fun c e e2 => inv.valsAgree h c hh e e2)
+    inv.valsFull hl
+
+theorem serve_params (db0 db : DB) (to pc : Int) (pfull : Bool) (keepV : Int → Bool)
+    (hto : loadInfo db0 (.params to) = some (pc, pfull))
+    (hr : Rel db0 db keepV (fun h => !pfull && h == pc) to)
+    (inv : PtrInv db0 to) (h : Int) (hh : to ≤ h) (hl : paramsLoadable db0 h = true) :
+    paramsLoadable db h = true :=
+  serve_params_at db0 db to pc pfull keepV hto hr h hh (fun c e e2 => inv.paramsAgree h c hh e e2)
+    inv.paramsFull hl
 
 def Write.key : Write → Key
   | .set k _ => k
